@@ -167,6 +167,11 @@ func runLifetimeChunk(cs []Case, st *lftStats, unit time.Duration) {
 	// have overlapped or a DoCache was made, or from the start with AlwaysPipelining.
 	opt.AlwaysPipelining = true
 	client, err := rueidis.NewClient(opt)
+	// on a loaded machine the set-up of the first connections can take longer than the (short) lifetime: try again
+	for try := 0; err != nil && try < 20; try++ {
+		time.Sleep(50 * time.Millisecond)
+		client, err = rueidis.NewClient(opt)
+	}
 	if err != nil {
 		st.mu.Lock()
 		st.inconcl = append(st.inconcl, fmt.Sprintf("sentinel NewClient with ConnLifetime failed (mode %s): %v", mode, err))
